@@ -54,6 +54,14 @@ def symbolic_params(ctx, con, fi):
         t = z3.Const("p_%s" % name, Z.Val)
         ctx.assume(ty.inv(t))
         sv = SV(t, ty)
+        if isinstance(ty, TExc):
+            from .repo import ExternalRef as _ER
+
+            bc = ctx.repo.get(ty.bound) if ":" in ty.bound else _ER(ty.bound)
+            I0 = Interp(ctx)
+            ctx.assume(I0.isa_term(sv, _ER("BaseException")))
+            ctx.assume(I0.isa_term(sv, bc))
+            ctx.assume(z3.Select(ctx.field_array("$cls"), Z.Val.id(t)) >= 1000)
         if isinstance(ty, TRef):
             ctx.assume(Z.Val.id(t) < ctx.alloc0)
             ctx.assume_class(t, ty)
@@ -79,7 +87,7 @@ def check_exit(I, con, bound, old_heap, tr_old_len, outcome, value):
     if outcome == "return":
         rty = con.result
         if rty is not None and not isinstance(rty, TNone):
-            if value is None:
+            if value is None and not isinstance(rty, (TAny, TOpt)):
                 ctx.oblige("%s/result-shape" % name, False, kind="post")
             else:
                 sv = ctx.to_val(value)
